@@ -431,11 +431,39 @@ def oracle(case, result):
         if len(set(names)) == len(names) == len(r):
             if list(d.keys()) != names or not all(same(d[n], v) for n, v in zip(names, r)):
                 return ('row:asDict-differs', f'{r!r}.asDict() = {d!r}')
-            dr = r.asDict(True)
-            if list(dr.keys()) != names or not all(same(dr[n], plain(v)) for n, v in zip(names, r)):
-                return ('row:asDict-recursive-differs', f'{r!r}.asDict(True) = {dr!r}')
+            # asDict(recursive=True) on the fresh Row, on the unpickled Row and on the Row collected from a DataFrame:
+            # no Row object is left at any depth (through lists and dict values) and the result is the plain
+            # dict / list rendering with the field names
+            subjects = [('fresh', r)]
+            try:
+                subjects.append(('pickled', pickle.loads(pickle.dumps(r))))
+            except Exception:  # pylint: disable=broad-except
+                pass
+            try:
+                got = SparkSession(Context()).createDataFrame([r]).collect()
+                if len(got) == 1 and isinstance(got[0], T.Row) and list(got[0].__fields__) == names:
+                    subjects.append(('collected', got[0]))
+            except Exception:  # pylint: disable=broad-except
+                pass          # not every Row is inferable (heterogeneous lists, undetermined types)
+            for what, x in subjects:
+                dr = x.asDict(True)
+                if holds_row(dr):
+                    return (f'row:asDict-recursive-keeps-a-Row:{what}', f'{x!r}.asDict(True) = {dr!r}')
+                if list(dr.keys()) != names or not all(same(dr[n], plain(v)) for n, v in zip(names, x)):
+                    return (f'row:asDict-recursive-differs:{what}', f'{x!r}.asDict(True) = {dr!r}')
         return None
     return None
+
+
+def holds_row(v):
+    """A Row object somewhere in v, looking through lists and dict values (tuples are not converted by asDict)."""
+    if isinstance(v, T.Row):
+        return True
+    if isinstance(v, list):
+        return any(holds_row(x) for x in v)
+    if isinstance(v, dict):
+        return any(holds_row(x) for x in v.values())
+    return False
 
 
 def leaf_paths(t, path=()):
@@ -1231,6 +1259,35 @@ def verify_cases(rng, t, quick):
     return cases
 
 
+def systematic_row_cases():
+    """asDict(recursive=True) over arrays / map values / nested arrays whose FIRST element says nothing about the
+    rest: [None, Row], [Row, None, Row], [plain, Row], [[], [Row]], [{}, {k: Row}] -- the first Row-bearing element
+    at every position 0..3, at depth 1..3 (directly in a field, inside an array, a map value, a nested Row).
+    Deterministic; runs at the head of the case stream in both tiers."""
+    R = T.create_row
+    inner = R(['x', 'y'], [1, R(['z'], ['s'])])
+    leaf_lists = []
+    for p in range(4):
+        leaf_lists.append([None] * p + [inner])                       # [None.., Row]
+        leaf_lists.append([None] * p + [inner, None, inner])          # [.., Row, None, Row]
+        leaf_lists.append([7] * p + [inner])                          # [plain.., Row]
+        leaf_lists.append([[]] * p + [[inner]])                       # [[].., [Row]]
+        leaf_lists.append([[None]] * p + [[None, inner]])             # [[None].., [None, Row]]
+        leaf_lists.append([{}] * p + [{'k': inner}])                  # [{}.., {k: Row}]
+        leaf_lists.append([{'k': None}] * p + [{'k': [None, inner]}])
+    cases = []
+    for lst in leaf_lists:
+        wraps = [lst,                                                   # depth 1: the field is the array
+                 [None, lst], [[], lst], [lst, None],                   # depth 2: nested array
+                 {'a': None, 'm': lst}, {'m': lst},                     # depth 2: map value
+                 R(['q', 'w'], [None, lst]),                            # depth 2: field of a nested Row
+                 [None, [None, lst]], {'a': [None, {'b': lst}]},        # depth 3
+                 [None, R(['q'], [[None, lst]])], {'a': R(['q'], [{'b': lst}])}]
+        for w in wraps:
+            cases.append(('row', enc_val(R(['n', 'v'], [1, w]))))
+    return cases
+
+
 def row_cases(rng, n):
     cases = [('row', enc_val(T.create_row([], []))), ('row', enc_val(T.create_row(['a', 'a'], [1, 2]))),
              ('row', enc_val(T.create_row(['a', 'b', 'a'], [1, [T.create_row(['x'], [None])], 3]))),
@@ -1324,7 +1381,7 @@ def safe_inner_names(t):
 
 def generate(rng, tier):
     quick = tier == 'quick'
-    cases = corpus_cases()
+    cases = systematic_row_cases() + corpus_cases()
     # ---- JSON round trip: depth 0 and 1 exhaustively, depth 2 exhaustively (thorough) / sampled (quick), depth 3 sampled
     for e in LEAVES:
         cases.append(('json', e))
